@@ -7,6 +7,7 @@ Require Import Selium.Base Selium.RustArith Selium.BackoffSpec Selium.BackoffRun
 Require Import SeliumGen.Backoff.
 Require Import Selium.Regex Selium.TopicSpec Selium.TopicName.
 Require Import Selium.Bytes Selium.Utf8 Selium.Bincode Selium.Wire SeliumGen.Layouts Selium.Transforms Selium.PubSub Selium.PubSubSpec Selium.ReqRep Selium.ReqRepSpec Selium.ClientPubSub Selium.ClientReqRep.
+Require Import Selium.ServerLang Selium.Server SeliumGen.ServerFacts Selium.ServerRun.
 
 Extraction Language OCaml.
 Extraction "model.ml"
@@ -21,4 +22,5 @@ Extraction "model.ml"
   ReqRepSpec.c02_state_ok ReqRepSpec.c10_state_ok ReqRepSpec.obs_c02_ok ReqRepSpec.obs_replies_delivered ReqRepSpec.obs_c10_ok ReqRepSpec.rcompleted ReqRepSpec.obs_rr_c09_bounded_ok ReqRepSpec.obs_c10_final_ok
   ClientPubSub.subscribe ClientPubSub.publish
   ClientReqRep.crun ClientReqRep.c_done
-  TopicName.try_from TopicName.create TopicName.is_valid TopicName.print TopicSpec.name_ok.
+  TopicName.try_from TopicName.create TopicName.is_valid TopicName.print TopicSpec.name_ok
+  ServerRun.ff ServerRun.client_first_reply ServerRun.prog_keeps_discipline ServerRun.stall_predict Server.lookup.
